@@ -81,7 +81,9 @@ Definition item_price (it : item) (cur : Z) (c : nat) (rates : list xrate) : opt
     else match find_alt cur (it_alts it) with
          | Some v => Some (rescale_up v c)
          | None => match find_rate ic cur rates with
-                   | Some r => Some (rescale (mul price r) c)   (* ExchangeRate.Convert *)
+                   (* ExchangeRate.Convert, as repaired: the amount is raised to at least the destination
+                      currency's decimals before Multiply (which rounds to its receiver's decimals) *)
+                   | Some r => Some (rescale (mul (match_precision price (zero_of c)) r) c)
                    | None => None
                    end
          end
